@@ -48,6 +48,11 @@ func valToGo(v Val) any {
 		return append([]byte{}, v.X...)
 	case "rstr":
 		return string(v.X)
+	case "link":
+		if c, err := cid.Cast(v.X); err == nil {
+			return c
+		}
+		return nil
 	case "null":
 		return literal.Null()
 	case "list", "map":
@@ -113,6 +118,8 @@ func valToCB(v Val) *CB {
 		return &CB{Major: 3, Data: append([]byte{}, v.X...)}
 	case "null":
 		return cbNull()
+	case "link":
+		return cbTag(42, cbBytes(append([]byte{0x00}, v.X...)))
 	case "list":
 		c := &CB{Major: 4}
 		for _, e := range v.L {
